@@ -252,8 +252,26 @@ Definition expected_cb (p : obs) (st : step) (o : obs) : list cbev :=
     context below its total did not start batch n+1 exactly [frequency] after batch n;
     5 a paused context issued a batch; 6 a control message by someone else / on a module-owned
     context succeeded; 7 callback invocations differ from one per completed batch of a
-    module-owned context (with err = nil iff #outputs >= threshold) / one per automatic pause *)
-Definition holds_C08 (seen : list reqid) (tr : track) (p : obs) (st : step) (o : obs) : Z :=
+    module-owned context (with err = nil iff #outputs >= threshold) / one per automatic pause;
+    4 also: a batch started before the height at which the next batch of the context was scheduled
+    (pause / start must neither move nor duplicate it); 8 a queue entry disagrees with the height
+    marker of its context (two entries for one context), or a running batch has no expiry marker
+    (the model-side statement is [QInv], proved for every history) *)
+
+(** per context: the height at which the expiry handler scheduled its next batch (start of the
+    last batch + frequency), recorded when the batch expired with the context RUNNING, repeated,
+    below its total and its settings untouched since the batch started; dropped by a successful
+    update / kill and once that height has passed.  Pause and start do NOT drop it: they must
+    neither move the scheduled batch nor add another one. *)
+Definition sched := list (ctxid * Z).
+
+Definition is_update_or_kill (st : step) : option ctxid :=
+  match st with
+  | Tx _ (MKill id _) | Tx _ (MUpdateCtx id _ _ _ _ _ _ _) | ModKill id _ => Some id
+  | _ => None
+  end.
+
+Definition holds_C08 (seen : list reqid) (tr : track) (sc : sched) (p : obs) (st : step) (o : obs) : Z :=
   let eb := is_endblock st in
   let h := o_height p in
   first_fail (
@@ -309,6 +327,17 @@ Definition holds_C08 (seen : list reqid) (tr : track) (p : obs) (st : step) (o :
             ((negb (t_state x =? 1))
              || match get id (o_ctxs o) with Some x' => t_batch x' =? t_batch x | None => true end, 5)) (o_ctxs p)
         else [])
+    ++ (if eb then
+          map (fun e =>
+            let '(id, x) := e in
+            (match get id sc, get id (o_ctxs o) with
+             | Some hh, Some x' => negb ((t_batch x <? t_batch x') && (h <? hh))
+             | _, _ => true
+             end, 4)) (o_ctxs p)
+        else [])
+    ++ map (fun e => (eqb (get (snd e) (o_newmark o)) (Some (fst e)), 8)) (o_newq o)
+    ++ map (fun e => (eqb (get (snd e) (o_expmark o)) (Some (fst e)), 8)) (o_expq o)
+    ++ map (fun e => (negb (t_brun (snd e)) || has (fst e) (o_expmark o), 8)) (o_ctxs o)
     ++ (match ctl_target st with
         | Some (id, cn, true) =>
             [((negb (o_code o =? 0))
@@ -340,9 +369,29 @@ Definition update_track (tr : track) (p : obs) (st : step) (o : obs) : track :=
       else t) (o_ctxs o) tr1
   else tr1.
 
+Definition update_sched (sc : sched) (tr : track) (p : obs) (st : step) (o : obs) : sched :=
+  let h := o_height p in
+  let sc1 := match is_update_or_kill st with
+             | Some id => if o_code o =? 0 then del id sc else sc
+             | None => sc
+             end in
+  if is_endblock st then
+    fold_left (fun t e =>
+      let '(id, x) := e in
+      let t1 := match get id t with Some hh => if hh <=? h then del id t else t | None => t end in
+      if eqb (get id (o_expmark p)) (Some h) && t_rep x && (t_state x =? 0)
+         && ((t_total x <? 0) || (t_batch x <? t_total x))
+      then match get id tr, get id (o_ctxs o) with
+           | Some (n, h0, true), Some x' =>
+               if (n =? t_batch x) && (t_state x' =? 0) && (t_freq x' =? t_freq x) then set id (h0 + t_freq x) t1 else t1
+           | _, _ => t1
+           end
+      else t1) (o_ctxs p) sc1
+  else sc1.
+
 Definition ledger_of (o : obs) : ledger := fold_left (fun l e => set (fst e) (snd e) l) (o_bals o) [].
 
-Fixpoint check_from (c : config) (s : state) (p : obs) (seen : list reqid) (tr : track)
+Fixpoint check_from (c : config) (s : state) (p : obs) (seen : list reqid) (tr : track) (sc : sched)
     (l : list (step * ob)) (i : Z) (corr p7 c7 p8 c8 : Z) : Z * Z * Z * Z * Z :=
   match l with
   | [] => (corr, p7, c7, p8, c8)
@@ -352,17 +401,17 @@ Fixpoint check_from (c : config) (s : state) (p : obs) (seen : list reqid) (tr :
       let s' := match r with Okk s1 => s1 | _ => s end in
       let corr' := if (corr <? 0) && negb (corr_step s st r s' o) then i else corr in
       let k7 := holds_C07 c p st o in
-      let k8 := holds_C08 seen tr p st o in
+      let k8 := holds_C08 seen tr sc p st o in
       let '(p7', c7') := if (p7 <? 0) && negb (k7 =? 0) then (i, k7) else (p7, c7) in
       let '(p8', c8') := if (p8 <? 0) && negb (k8 =? 0) then (i, k8) else (p8, c8) in
-      check_from c s' o (seen ++ map fst (created_in p o)) (update_track tr p st o) rest (i + 1) corr' p7' c7' p8' c8'
+      check_from c s' o (seen ++ map fst (created_in p o)) (update_track tr p st o) (update_sched sc tr p st o) rest (i + 1) corr' p7' c7' p8' c8'
   end.
 
 Definition check_all (cs : case) : Z * Z * Z * Z * Z :=
   let '(c, o0, l) := cs in
   let s0 := init (o_height o0) (o_time o0) (ledger_of o0) in
   let corr0 := if corr_state s0 o0 then -1 else 0 in
-  check_from c s0 o0 (map fst (o_reqs o0)) [] l 1 corr0 (-1) 0 (-1) 0.
+  check_from c s0 o0 (map fst (o_reqs o0)) [] [] l 1 corr0 (-1) 0 (-1) 0.
 
 (** (first diverging step or -1, first step violating the property or -1, clause) *)
 Definition check_case_C07 (cs : case) : Z * Z * Z :=
